@@ -7,6 +7,16 @@ import numpy as np
 from . import convlib as L
 
 
+def unsorted_grid(rng, n):
+    """descending, or two ascending banks concatenated without re-sorting"""
+    _, g = inc_grid(rng, n, rng.choice(["uniform", "jitter", "nonuniform"]))
+    if rng.random() < 0.4 or n < 4:
+        return "descending", g[::-1]
+    k = n // 2
+    a, b = g[:k + 1], g[k - 1:]
+    return "twobanks", (a + [v + 0.37 * (g[1] - g[0]) for v in b])[:n] if len(a) + len(b) >= n else g[::-1]
+
+
 def inc_grid(rng, n, kind=None, start0=None):
     """strictly increasing grid"""
     kind = kind or rng.choice(["uniform0", "uniform", "jitter", "nonuniform", "firstmean", "stitched", "intgrid"])
@@ -98,7 +108,7 @@ def out_grid(rng, m, kind=None):
 def window(rng, x, mode=None):
     """(xmin, xmax, descriptor); None = not given"""
     mode = mode or rng.choice(["none", "none", "grid", "between", "outside", "lo_only", "hi_only", "hi_grid", "near"])
-    lo, hi = x[0], x[-1]
+    lo, hi = min(x), max(x)
     if mode == "none" or len(x) < 2:
         return None, None, "none"
     if mode == "near":     # an edge a hair inside a grid point: that point is outside the closed interval
@@ -132,9 +142,9 @@ def sizes(rng, tier):
     return n, m
 
 
-def gen_ft_case(rng, tier, lorch=False, omitted=False, channel=2, win=None, dy_kinds=None, grid_kind=None):
+def gen_ft_case(rng, tier, lorch=False, omitted=False, channel=2, win=None, dy_kinds=None, grid_kind=None, unsorted=False):
     n, m = sizes(rng, tier)
-    gk, xin = inc_grid(rng, n, grid_kind)
+    gk, xin = unsorted_grid(rng, n) if unsorted else inc_grid(rng, n, grid_kind)
     if omitted and xin[0] == 0.0 and rng.random() < 0.7:
         s = rng.logu(0.05, 1.5)
         xin = [v + s for v in xin]
@@ -220,9 +230,9 @@ def trapz_sine(x, y, xp):
 
 
 # ---- named transforms ----
-def gen_named_case(rng, tier, direction, X, Y, lorch=False, omitted=False, channel=2, positive=False):
+def gen_named_case(rng, tier, direction, X, Y, lorch=False, omitted=False, channel=2, positive=False, unsorted=False):
     n, m = sizes(rng, tier)
-    gk, xin = inc_grid(rng, n)
+    gk, xin = unsorted_grid(rng, n) if unsorted else inc_grid(rng, n)
     if (omitted or positive) and xin[0] == 0.0:
         s = rng.logu(0.05, 1.5)
         xin = [v + s for v in xin]
